@@ -149,6 +149,8 @@ func runCheck(repo, verif, prop, tier string, timeout, par int, keep bool) int {
 		for _, m := range customModules {
 			pats = append(pats, "./x/"+m, "./x/"+m+"/types")
 		}
+		// whoever may run a message handler (handlerInvocations): the application wiring and the contract bindings
+		pats = append(pats, "./app/...", "./wasmbinding/...")
 	}
 	if prop == "C05" {
 		for _, m := range append(append([]string{}, customModules...), "jklmint") {
